@@ -1,6 +1,27 @@
 /-
   NON-VACUITY AUDIT of the obligation theorems (Properties/C01 … C20, Extracted/EquivC03 … EquivC20).
 
+/-! ### C03: a saving job on a thread pool -/
+section C03Save
+open PysparklingVerif.SaveSched
+
+def c03SaveParts : List (List Nat) := [[1, 2], [3, 4], [5]]
+def c03SaveSched : List Nat := [2, 0, 1, 1, 0, 2, 1, 0, 2]
+
+theorem c03SaveComplete : Complete c03SaveParts.length c03SaveSched := by
+  intro i hi
+  match i, hi with
+  | 0, _ => decide
+  | 1, _ => decide
+  | 2, _ => decide
+  | n + 3, h => exact absurd h (by simp [c03SaveParts])
+
+-- NONVACUOUS: PysparklingVerif.C03.save_any_complete_schedule
+example : (run stepNew c03SaveSched (initSys c03SaveParts)).tasks.all (·.pc == .done) = true :=
+  (C03.save_any_complete_schedule c03SaveParts c03SaveSched c03SaveComplete).1
+end C03Save
+
+
 /-! ### Extracted/EquivC13 -/
 section EquivC13
 open PysparklingVerif.Gen.C13 PysparklingVerif.Extracted.C13
@@ -1498,6 +1519,7 @@ end EquivC11
 -- NO-HYPOTHESES: PysparklingVerif.Extracted.C09.saveAsTextFile_eq_model
 -- NO-HYPOTHESES: PysparklingVerif.Extracted.C10.queueGet_eq
 -- NO-HYPOTHESES: PysparklingVerif.Extracted.C10.fileGet_eq
+-- NO-HYPOTHESES: PysparklingVerif.C03.save_old_code_race
 -- NO-HYPOTHESES: PysparklingVerif.Extracted.C01.aggregate_eq
 -- NO-HYPOTHESES: PysparklingVerif.Extracted.C01.fold_eq
 -- NO-HYPOTHESES: PysparklingVerif.Extracted.C01.count_eq
